@@ -151,3 +151,43 @@ def s8(ctx):
                  "%s: %d refusal case(s) that depend on the stored cursor, %s" % (name, n, "each implies cursor < data_offset or cursor > mapped length" if not bad else
                                                                                   "%d of them also refuse a cursor inside the bounds: %s" % (len(bad), bad[0][1])),
                  ctx.loc(bad[0][0]) if bad else b.loc())
+
+
+@rule("C05-S9", "C05", 2, "every mapping of the file starts at the configured offset: where the memory-map options are built (Options::to_mmap_options for the writable opens, "
+      "truncate and the anonymous map; by hand in the read-only open), each path that reaches the end of the construction without the call MmapOptions::offset(opts.offset) "
+      "carries offset = 0 - and nothing else decides it (a read-only reopen without a capacity option must not map the file from byte 0 and read somebody else's header)",
+      configs=MEMCFG, also=("C09", "C16"))
+def s9(ctx):
+    import dnf as D
+    for pat in (r"options::Options>::to_mmap_options$|^options::Options::to_mmap_options$", r"^memory::Memory::<R, PR, H>::map_in$"):
+        b = ctx.facts.one(pat)
+        ev, res = ctx.eval(b, no_inline=(r"\{closure",))
+        offs = [e for e in res.log if e["kind"] == "call" and not e["chain"] and re.search(r"MmapOptions::offset$", e["callee"])]
+        if len(offs) != 1:
+            yield Ob(key_of("C05-S9", b.path, "offset-call"), False, "expected one MmapOptions::offset call, found %d" % len(offs), b.loc())
+            continue
+        e = offs[0]
+        arg = canon(e["args"][1])
+        oka = "offset" in show(arg) and tag(arg) in ("field", "hload", "call", "upvar", "param")
+        yield Ob(key_of("C05-S9", b.path, "offset-value"), oka, "MmapOptions::offset(%s)" % short(arg, 60), ctx.loc(e))
+        # the ends of the construction: the returns of to_mmap_options / the call that maps in map_in
+        if b.name == "to_mmap_options":
+            ends = [r["bb"] for r in res.log if r["kind"] == "ret0" and not r["chain"]]
+        else:
+            ends = [c["bb"] for c in res.log if c["kind"] == "call" and not c["chain"] and re.search(r"ops::(Fn|FnMut|FnOnce)(<.*>)?>?::(call|call_mut|call_once)$|<indirect>", c["callee"]) and c["seq"] > e["seq"]][:1]
+        if not ends:
+            yield Ob(key_of("C05-S9", b.path, "reaches-the-mapping"), False, "the end of the option construction was not found", b.loc())
+            continue
+        ok = True
+        n = 0
+        for bb in ends:
+            avoid = D.block_dnf(ev, res, b, bb, stop=frozenset([e["bb"]]))
+            if avoid is None:
+                ok = False
+                continue
+            for c in avoid:
+                n += 1
+                zero = any(f[0] == "cmp" and f[1] in ("Le", "Eq") and "offset" in show(f[2]) and is_const(f[3]) and as_lin(f[3]).c == 0 for f in c) or \
+                       any(f[0] == "cmp" and f[1] in ("Ge", "Eq") and is_const(f[2]) and as_lin(f[2]).c == 0 and "offset" in show(f[3]) for f in c)
+                ok = ok and zero
+        yield Ob(key_of("C05-S9", b.path, "offset-on-every-path"), ok, "%d way(s) to build the options without MmapOptions::offset, each under offset = 0" % n, ctx.loc(e))
